@@ -181,6 +181,7 @@ fn handle(line: &str) -> String {
     let id = if parts.len() > 1 { parts[1].to_string() } else { "-".to_string() };
     match parts[0] {
         "CKS" => { set_checksums(parts[1] == "1"); "R - ok".to_string() }
+        "REUSE" => "R - ok".to_string(),
         "ENC" => {
             let arg = if parts.len() > 3 { parts[3] } else { "" };
             let mut tk = Toks { t: arg.split_whitespace().map(|s| s.to_string()).collect(), i: 0 };
